@@ -612,11 +612,17 @@ type blockDefinition struct {
 func (n *BlockNode) Render(w io.Writer, ctx *RenderContext) error {
 	// The definitions of this block along the extends chain, most derived
 	// first, were collected while the chain was walked (RootNode.Render). A
-	// block that does not stand at the top level of its template (it is nested
-	// in another block, a loop or a condition) was not seen there: it is the
+	// block that stands in a loop or a condition was not seen there: it is the
 	// definition furthest up the chain.
 	chain := ctx.blockChain[n.name]
-	if len(chain) == 0 || chain[len(chain)-1].node != n {
+	known := false
+	for i := range chain {
+		if chain[i].node == n {
+			known = true
+			break
+		}
+	}
+	if !known {
 		chain = append(chain[:len(chain):len(chain)], blockDefinition{n, ctx.lastLoadedTemplate})
 		if ctx.blockChain == nil {
 			ctx.blockChain = make(map[string][]blockDefinition)
@@ -1496,13 +1502,23 @@ func (n *RootNode) Render(w io.Writer, ctx *RenderContext) error {
 	// Register the blocks of this template behind the definitions that came
 	// from the templates extending it: the chain of a block lists its
 	// definitions from the most derived template to the base layout
-	for _, child := range n.children {
-		if block, ok := child.(*BlockNode); ok {
-			if ctx.blockChain == nil {
-				ctx.blockChain = make(map[string][]blockDefinition)
+	// (a block written inside another block of this template is a definition
+	// of this template as well: it overrides the definitions further up)
+	var register func(nodes []Node)
+	register = func(nodes []Node) {
+		for _, child := range nodes {
+			if block, ok := child.(*BlockNode); ok {
+				if ctx.blockChain == nil {
+					ctx.blockChain = make(map[string][]blockDefinition)
+				}
+				ctx.blockChain[block.name] = append(ctx.blockChain[block.name], blockDefinition{block, ctx.lastLoadedTemplate})
+				register(block.body)
 			}
-			ctx.blockChain[block.name] = append(ctx.blockChain[block.name], blockDefinition{block, ctx.lastLoadedTemplate})
-		} else if ext, ok := child.(*ExtendsNode); ok {
+		}
+	}
+	register(n.children)
+	for _, child := range n.children {
+		if ext, ok := child.(*ExtendsNode); ok {
 			// If this is an extends node, record it for later
 			extendsNode = ext
 		}
